@@ -198,10 +198,10 @@ pub fn case(idx: u64, seed: u64, p: &Params, o: &mut CaseOut) {
     if kind == 2 && r.chance(0.3) {
         let bad = *r.pick(&[-eps, 1.0 + eps, f64::NAN, -1.0, 2.0, f64::INFINITY, f64::NEG_INFINITY]);
         match ty {
-            0 => o.must_panic("AdjacencyList::erdos_renyi:no-panic-for-p-outside-[0,1]", || format!("p = {bad}"), || AdjacencyList::erdos_renyi(n.max(2), bad, gseed)),
-            2 => o.must_panic("AdjacencyMatrix::erdos_renyi:no-panic-for-p-outside-[0,1]", || format!("p = {bad}"), || AdjacencyMatrix::erdos_renyi(n.max(2), bad, gseed)),
-            3 => o.must_panic("EdgeList::erdos_renyi:no-panic-for-p-outside-[0,1]", || format!("p = {bad}"), || EdgeList::erdos_renyi(n.max(2), bad, gseed)),
-            _ => o.must_panic("AdjacencyMap::erdos_renyi:no-panic-for-p-outside-[0,1]", || format!("p = {bad}"), || AdjacencyMap::erdos_renyi(n.max(2), bad, gseed)),
+            0 => o.must_panic("AdjacencyList::erdos_renyi:no-panic-for-p-outside-[0,1]", || format!("p = {bad}"), || AdjacencyList::erdos_renyi(n, bad, gseed)),
+            2 => o.must_panic("AdjacencyMatrix::erdos_renyi:no-panic-for-p-outside-[0,1]", || format!("p = {bad}"), || AdjacencyMatrix::erdos_renyi(n, bad, gseed)),
+            3 => o.must_panic("EdgeList::erdos_renyi:no-panic-for-p-outside-[0,1]", || format!("p = {bad}"), || EdgeList::erdos_renyi(n, bad, gseed)),
+            _ => o.must_panic("AdjacencyMap::erdos_renyi:no-panic-for-p-outside-[0,1]", || format!("p = {bad}"), || AdjacencyMap::erdos_renyi(n, bad, gseed)),
         };
         o.bump("inadmissible_p");
     }
